@@ -31,6 +31,9 @@ VALID = [
     # valid but unusual spellings: explicit aromatic bonds / explicit hydrogens / ring closure across a dot
     "[cH]1:[cH]:[cH]:[cH]:[cH]:[c]:1-C(=O)Cl.N>>N-C(=O)-c1:c:c:c:c:c:1", "[H]OC([H])([H])C.CC(=O)Cl>>CCOC(C)=O",
     "C1.O1.CC(=O)Cl>>COC(C)=O",
+    # valid reaction strings that carry a blank-separated title / CXSMILES block / trailing blanks
+    "CC(=O)O.OCCC>>CC(=O)OCCC.O esterification", "C=CC.Br>>CC(C)Br |f:0.1|", "CCCCO>>C=CCC.O  ",
+    "CC(=O)CC>>CC(O)CC C", "CCCCCO>>CCCCC=O pentanol oxidation",
 ]
 MALFORMED = {
     "unparsable": "CC(C>>CCO",
@@ -43,7 +46,13 @@ MALFORMED = {
     "missing": None,
     "missing_nan": float("nan"),
     "empty_record": "<empty record>",
+    # values that are not strings at all (JSON datasets and lists of dictionaries can carry them)
+    "number": 5,
+    "list_value": ["CCO>>CC=O", "CCO>>C=C.O"],
+    "empty_list": [],
+    "dict_value": {"smiles": "CCO>>CC=O"},
 }
+NONSTRING = {"number", "list_value", "empty_list", "dict_value"}
 EMPTYSIDE = {"empty_product": "CCOC>>", "empty_reactant": ">>CCN"}
 SOURCES = ["list_str", "list_dict", "csv", "json"]
 
@@ -72,6 +81,8 @@ def plan(tier, seed):
     def add(seq_kinds, bs, source):
         if source == "list_str" and ({"missing", "missing_nan", "empty_record"} & set(seq_kinds)):
             source = "list_dict"
+        if source in ("list_str", "csv") and (NONSTRING & set(seq_kinds)):
+            source = "json" if source == "csv" else "list_dict"
         cases.append({"seq": build(seq_kinds, rng), "bs": bs, "source": source})
 
     si = 0
@@ -107,7 +118,7 @@ def plan(tier, seed):
         sk = ["v"] * n
         if i % 3 != 2:
             for p in rng.sample(range(n), 1 + (i % 2)):
-                sk[p] = rng.choice([k for k in kinds if k != "empty_record"])
+                sk[p] = rng.choice([k for k in kinds if k != "empty_record" and k not in NONSTRING])
         if sk[0] != "v":
             sk[0], sk[-1] = sk[-1], sk[0]  # the CLI validates the first row itself
         if sk[0] != "v":
